@@ -406,6 +406,19 @@ def curve_interpolation(repo: Repo, rep, P: str):
     (k1, s1), (k2, s2) = list(knots.items())
     atoms: Dict[str, str] = {}
 
+    def unclamp(e):
+        """min(k + 1, LAST): the right neighbour, clamped to the last table entry (the last bucket repeats its own knot)."""
+        if isinstance(e, ast.Call) and norm(e.func) == "min" and len(e.args) == 2:
+            for a_, b_ in ((e.args[0], e.args[1]), (e.args[1], e.args[0])):
+                try:
+                    kk = repo.fold(b_, sf=repo.module("rv.modules.multictl"))
+                except Exception:
+                    kk = None
+                if isinstance(kk, int) and kk >= 255:
+                    return a_
+        return e
+    s1, s2 = unclamp(s1), unclamp(s2)
+
     def ileaf(e):
         if isinstance(e, ast.Call):
             atoms.setdefault(norm(e), f"t{len(atoms)}")
@@ -448,6 +461,23 @@ def mapping_arity(repo: Repo, mc) -> Tuple[int, Optional[int], ast.AST]:
     if mp is None or "__init__" not in mp.methods:
         raise AnchorMissing("MultiCtl.Mapping.__init__")
     init = mp.methods["__init__"]
+    # for field, item in zip(FIELDS, value[:8], strict=True): setattr(self, field, item)
+    for lp in [x for x in walk_no_nested(init) if isinstance(x, ast.For)]:
+        if isinstance(lp.iter, ast.Call) and norm(lp.iter.func) == "zip" and len(lp.iter.args) == 2 and isinstance(lp.target, ast.Tuple) and len(lp.target.elts) == 2 \
+                and any(isinstance(c_, ast.Call) and norm(c_.func) == "setattr" and len(c_.args) == 3 and norm(c_.args[0]) == "self" for c_ in ast.walk(lp)):
+            try:
+                names_ = repo.fold(lp.iter.args[0], ci=mp, sf=mp.file)
+            except Exception:
+                names_ = None
+            if isinstance(names_, (tuple, list)) and all(isinstance(x, str) for x in names_):
+                cut = None
+                v_ = lp.iter.args[1]
+                if isinstance(v_, ast.Subscript) and isinstance(v_.slice, ast.Slice) and v_.slice.upper is not None:
+                    try:
+                        cut = repo.fold(v_.slice.upper, ci=mp)
+                    except NotConst:
+                        cut = None
+                return len(names_), cut, lp
     for n in walk_no_nested(init):
         if isinstance(n, ast.Assign) and isinstance(n.targets[0], ast.Tuple):
             need = len(n.targets[0].elts)
@@ -476,6 +506,11 @@ def arity(repo: Repo, rep, P: str, mc):
             if isinstance(a, ast.Tuple):
                 sites += 1
                 _check_len(rep, P, rel, f"{rel}:MultiCtl", norm(c)[:100], len(a.elts), need, c)
+            elif isinstance(a, ast.BinOp) and mc.methods.get("macro") is not None:
+                sh_ = _Shapes(repo, mc, mc.methods["macro"]).expr(a)          # (0, FULL) + (0,) * 6
+                if sh_[0] == "tup":
+                    sites += 1
+                    _check_len(rep, P, rel, f"{rel}:MultiCtl", norm(c)[:100], len(sh_[1]), need, c)
     # (b) tuples appended to the list that macro passes as mappings=
     macro = mc.methods.get("macro")
     if macro is None:
